@@ -39,7 +39,7 @@ CONSTANTS MaxReq,      \* requests in the client's plan
           Faults       \* subset of {"eof", "reset", "fail", "term"} the environment may inject
 
 Reqs == 1..MaxReq
-CodeDev == {"disc_put_blocks", "parked_not_released", "double_access_log"}   \* "idle_keeps_handler" was repaired
+CodeDev == {"disc_put_blocks", "parked_not_released"}   \* "idle_keeps_handler" and "double_access_log" were repaired
 
 VARIABLES
     plan,      \* [Reqs -> [body : 0..MaxBody, close : BOOLEAN]]
@@ -85,11 +85,11 @@ AllToks(p, r) == IF r > MaxReq THEN <<>> ELSE TokensOf(p, r) \o AllToks(p, r + 1
 Toks == AllToks(plan, 1)
 
 NoWire == [head |-> 0, status |-> 0, chunks |-> 0, ends |-> 0]
-NoHist == [disc |-> 0, acc |-> 0, afterDisc |-> 0, overlap |-> FALSE, afterClose |-> FALSE]
+NoHist == [disc |-> 0, acc |-> 0, afterDisc |-> 0, overlap |-> FALSE, afterClose |-> FALSE, stale |-> FALSE]
 
 Init ==
     /\ plan \in Plans
-    /\ csent = 0 /\ ceof = FALSE /\ creset = FALSE /\ tfail = FALSE /\ term = FALSE
+    /\ csent = 0 /\ ceof = FALSE /\ creset = FALSE /\ tfail = "no" /\ term = FALSE
     /\ net = <<>> /\ hbuf = <<>> /\ heof = FALSE
     /\ their = "IDLE" /\ our = "IDLE" /\ keepalive = TRUE
     /\ rpc = "read" /\ rput = "" /\ canRead = TRUE
@@ -110,7 +110,10 @@ Init ==
     /\ hdone = FALSE
 
 (* ---- helpers -------------------------------------------------------------- *)
-Writable == tr = "open" /\ ~tfail /\ ~creset
+(* tfail: "no" | "armed" (the next write will fail) | "dead" (a write has failed) | "gone" (... and the
+   runtime has told the reader: asyncio does so at once, trio's stream may never) *)
+Writable == tr = "open" /\ tfail = "no" /\ ~creset
+FailNote(attempt) == tfail' = IF attempt /\ tfail = "armed" THEN "dead" ELSE tfail
 RespDone(r) == wire[r].ends > 0
 (* h11: once keep-alive is off, a side that reaches DONE goes to MUST_CLOSE *)
 Fix(st, ka) == IF st = "DONE" /\ ~ka THEN "MUST_CLOSE" ELSE st
@@ -150,8 +153,14 @@ ClientReset ==
                    cur, sclosed, asgi, appst, q, todo, kar, idle, now, tr, wire, errResp, hist, closedBy, hdone>>
 
 TransportFail ==
-    /\ "fail" \in Faults /\ ~tfail
-    /\ tfail' = TRUE
+    /\ "fail" \in Faults /\ tfail = "no"
+    /\ tfail' = "armed"
+    /\ UNCHANGED <<plan, csent, ceof, creset, term, net, hbuf, heof, their, our, keepalive, rpc, rput, canRead,
+                   cur, sclosed, asgi, appst, q, todo, kar, idle, now, tr, wire, errResp, hist, closedBy, hdone>>
+
+TransportDeath ==
+    /\ tfail = "dead"
+    /\ tfail' = "gone"
     /\ UNCHANGED <<plan, csent, ceof, creset, term, net, hbuf, heof, their, our, keepalive, rpc, rput, canRead,
                    cur, sclosed, asgi, appst, q, todo, kar, idle, now, tr, wire, errResp, hist, closedBy, hdone>>
 
@@ -173,11 +182,15 @@ Tick ==
 (* tcp_server._read_data: one read() returns everything that is available *)
 ReadData ==
     /\ rpc = "read" /\ todo[RD] = <<>> /\ ~hdone
-    /\ \/ /\ net # <<>> /\ tr = "open" /\ ~creset
+    /\ \/ /\ net # <<>> /\ tr = "open" /\ ~creset /\ tfail # "gone"
           /\ hbuf' = hbuf \o net /\ net' = <<>> /\ rpc' = "events" /\ UNCHANGED heof
-       \/ /\ net = <<>> /\ ceof /\ ~heof /\ tr = "open" /\ ~creset
+       \/ /\ net = <<>> /\ ceof /\ ~heof /\ tr = "open" /\ ~creset /\ tfail # "gone"
           /\ heof' = TRUE /\ rpc' = "events" /\ UNCHANGED <<hbuf, net>>
-       \/ /\ (tr = "closed" \/ creset \/ (heof /\ net = <<>>))
+       \* asyncio: an EOF that arrived while the reader was busy is seen by `reader.at_eof()` at the loop
+       \* head and never handed to h11 (trio always hands it over); both are allowed here
+       \/ /\ net = <<>> /\ ceof /\ ~heof /\ tr = "open" /\ ~creset /\ tfail # "gone"
+          /\ rpc' = "closing" /\ UNCHANGED <<hbuf, net, heof>>
+       \/ /\ (tr = "closed" \/ creset \/ tfail = "gone" \/ (heof /\ net = <<>>))
           /\ rpc' = "closing" /\ UNCHANGED <<hbuf, net, heof>>
     /\ UNCHANGED <<plan, csent, ceof, creset, tfail, term, their, our, keepalive, rput, canRead,
                    cur, sclosed, asgi, appst, q, todo, kar, idle, now, tr, wire, errResp, hist, closedBy, hdone>>
@@ -193,10 +206,15 @@ PutOrPark(r, msg) ==
 (* the hinted 4xx is written only while our side has not started a response *)
 ErrorPath ==
     /\ their' = "ERROR"
-    /\ IF our \in {"IDLE", "SEND_RESPONSE"} /\ Writable
-       THEN /\ errResp' = 1 /\ our' = "MUST_CLOSE" /\ keepalive' = FALSE
-       ELSE /\ UNCHANGED <<errResp, our, keepalive>>
-    /\ todo' = [todo EXCEPT ![RD] = <<<<"serverClose", 0>>>>]
+    /\ IF our \in {"IDLE", "SEND_RESPONSE"}
+       THEN \* h11 accepts the error response (our side is done with it) whether or not the write succeeds;
+            \* a failed write makes protocol_send call protocol.handle(Closed()) first
+            /\ our' = "MUST_CLOSE" /\ keepalive' = FALSE
+            /\ errResp' = IF Writable THEN 1 ELSE errResp
+            /\ FailNote(TRUE)
+            /\ todo' = [todo EXCEPT ![RD] = (IF Writable THEN <<>> ELSE WriteFailTodo(RD)) \o <<<<"serverClose", 0>>>>]
+       ELSE /\ UNCHANGED <<errResp, our, keepalive, tfail>>
+            /\ todo' = [todo EXCEPT ![RD] = <<<<"serverClose", 0>>>>]
     /\ rpc' = "read"
 
 NextEvent ==
@@ -212,26 +230,26 @@ NextEvent ==
              /\ StopIdle
              \* (judged only while the transport is open: a request that races with the server's own
              \*  close is lost to the client whatever the server does with it)
-             /\ hist' = [hist EXCEPT ![r].overlap = (r > 1 /\ ~RespDone(r - 1) /\ tr = "open" /\ ~tfail /\ ~creset),
-                                     ![r].afterClose = (r > 1 /\ ~ReusableAfter(r - 1) /\ tr = "open" /\ ~tfail /\ ~creset)]
-             /\ UNCHANGED <<our, rpc, rput, q, todo, errResp, canRead, sclosed>>
+             /\ hist' = [hist EXCEPT ![r].overlap = (r > 1 /\ ~RespDone(r - 1) /\ tr = "open" /\ tfail = "no" /\ ~creset),
+                                     ![r].afterClose = (r > 1 /\ ~ReusableAfter(r - 1) /\ tr = "open" /\ tfail = "no" /\ ~creset)]
+             /\ UNCHANGED <<tfail, our, rpc, rput, q, todo, errResp, canRead, sclosed>>
        \/ \* Data
           /\ hbuf # <<>> /\ Head(hbuf)[2] = "B" /\ their = "SEND_BODY"
           /\ hbuf' = Tail(hbuf)
           /\ IF cur = 0 THEN rpc' = "read" /\ UNCHANGED <<q, rput>>     \* `elif self.stream is None: break`
              ELSE PutOrPark(cur, "body")
-          /\ UNCHANGED <<their, our, keepalive, cur, asgi, appst, kar, idle, hist, todo, errResp, canRead, sclosed>>
+          /\ UNCHANGED <<tfail, their, our, keepalive, cur, asgi, appst, kar, idle, hist, todo, errResp, canRead, sclosed>>
        \/ \* EndOfMessage
           /\ hbuf # <<>> /\ Head(hbuf)[2] = "E" /\ their = "SEND_BODY"
           /\ hbuf' = Tail(hbuf)
           /\ their' = Fix("DONE", keepalive)
           /\ IF cur = 0 THEN rpc' = "read" /\ UNCHANGED <<q, rput>>
              ELSE PutOrPark(cur, "end")
-          /\ UNCHANGED <<our, keepalive, cur, asgi, appst, kar, idle, hist, todo, errResp, canRead, sclosed>>
+          /\ UNCHANGED <<tfail, our, keepalive, cur, asgi, appst, kar, idle, hist, todo, errResp, canRead, sclosed>>
        \/ \* PAUSED: a pipelined request is waiting behind the current one
           /\ hbuf # <<>> /\ their = "DONE"
           /\ canRead' = FALSE /\ rpc' = "paused"
-          /\ UNCHANGED <<hbuf, their, our, keepalive, cur, asgi, appst, kar, idle, hist, q, rput, todo, errResp, sclosed>>
+          /\ UNCHANGED <<tfail, hbuf, their, our, keepalive, cur, asgi, appst, kar, idle, hist, q, rput, todo, errResp, sclosed>>
        \/ \* data after the peer said it would close, or after an error: protocol error
           /\ hbuf # <<>> /\ their \in {"MUST_CLOSE", "CLOSED"}
           /\ ErrorPath
@@ -239,17 +257,17 @@ NextEvent ==
        \/ \* NEED_DATA
           /\ hbuf = <<>> /\ ~heof
           /\ rpc' = "read"
-          /\ UNCHANGED <<hbuf, their, our, keepalive, cur, asgi, appst, kar, idle, hist, q, rput, todo, errResp, canRead, sclosed>>
+          /\ UNCHANGED <<tfail, hbuf, their, our, keepalive, cur, asgi, appst, kar, idle, hist, q, rput, todo, errResp, canRead, sclosed>>
        \/ \* EOF from the peer between messages: ConnectionClosed
           /\ hbuf = <<>> /\ heof /\ their \in {"IDLE", "DONE", "MUST_CLOSE", "CLOSED", "ERROR"}
           /\ rpc' = "read"
           /\ their' = IF their = "ERROR" THEN "ERROR" ELSE "CLOSED"
-          /\ UNCHANGED <<hbuf, our, keepalive, cur, asgi, appst, kar, idle, hist, q, rput, todo, errResp, canRead, sclosed>>
+          /\ UNCHANGED <<tfail, hbuf, our, keepalive, cur, asgi, appst, kar, idle, hist, q, rput, todo, errResp, canRead, sclosed>>
        \/ \* EOF in the middle of a message: RemoteProtocolError
           /\ hbuf = <<>> /\ heof /\ their = "SEND_BODY"
           /\ ErrorPath
           /\ UNCHANGED <<hbuf, cur, asgi, appst, kar, idle, hist, q, rput, canRead, sclosed>>
-    /\ UNCHANGED <<plan, csent, ceof, creset, tfail, term, net, heof, now, tr, wire, closedBy, hdone>>
+    /\ UNCHANGED <<plan, csent, ceof, creset, term, net, heof, now, tr, wire, closedBy, hdone>>
 
 ReaderPut ==
     /\ rpc = "put" /\ ~hdone
@@ -350,53 +368,65 @@ AppRecv(k) ==
 AppSendStart(k) ==
     /\ Running(k) /\ asgi[k] = "REQ"
     /\ asgi' = [asgi EXCEPT ![k] = "RESP"]
-    /\ IF cur = k /\ our \in {"IDLE", "SEND_RESPONSE"}
+    \* (stream_send does not ask which stream is sending: only h11's own state gates the write, so a
+    \*  stream that was closed under its application - peer EOF - still answers on a half-open connection)
+    /\ IF our \in {"IDLE", "SEND_RESPONSE"}
        THEN /\ our' = "SEND_BODY"
+            /\ hist' = [hist EXCEPT ![k].stale = @ \/ cur \notin {0, k}]
             /\ keepalive' = (keepalive /\ kar < KAMax)      \* connection: close at the request maximum
+            \* h11 re-evaluates both sides whenever keep-alive is switched off: a side that is DONE must close
+            /\ their' = Fix(their, keepalive /\ kar < KAMax)
+            /\ FailNote(TRUE)
             /\ IF Writable
                THEN wire' = [wire EXCEPT ![k].head = @ + 1, ![k].status = 200] /\ UNCHANGED todo
                ELSE todo' = [todo EXCEPT ![AppTask(k)] = WriteFailTodo(AppTask(k))] /\ UNCHANGED wire
-       ELSE UNCHANGED <<our, keepalive, wire, todo>>        \* h11 refuses / stream gone: nothing written
-    /\ UNCHANGED <<plan, csent, ceof, creset, tfail, term, net, hbuf, heof, their, rpc, rput, canRead, cur, sclosed,
-                   appst, q, kar, idle, now, tr, errResp, hist, closedBy, hdone>>
+       ELSE UNCHANGED <<our, keepalive, their, wire, todo, tfail, hist>>        \* h11 refuses: nothing written
+    /\ UNCHANGED <<plan, csent, ceof, creset, term, net, hbuf, heof, rpc, rput, canRead, cur, sclosed,
+                   appst, q, kar, idle, now, tr, errResp, closedBy, hdone>>
 
 (* http.response.body: more_body = TRUE writes a chunk; FALSE also runs _send_closed *)
 AppSendBody(k, final) ==
     /\ Running(k) /\ asgi[k] = "RESP"
     /\ wire[k].chunks < 2
-    /\ LET live == cur = k /\ our = "SEND_BODY" IN
+    /\ FailNote(our = "SEND_BODY")
+    /\ LET live == our = "SEND_BODY"
+           stl == live /\ cur \notin {0, k} IN
        IF ~final
        THEN /\ IF live /\ Writable THEN wire' = [wire EXCEPT ![k].chunks = @ + 1] /\ UNCHANGED todo
                ELSE IF live THEN todo' = [todo EXCEPT ![AppTask(k)] = WriteFailTodo(AppTask(k))] /\ UNCHANGED wire
                ELSE UNCHANGED <<wire, todo>>
-            /\ UNCHANGED <<asgi, our, hist>>
+            /\ hist' = [hist EXCEPT ![k].stale = @ \/ stl]
+            /\ UNCHANGED <<asgi, our>>
        ELSE /\ asgi' = [asgi EXCEPT ![k] = "CLOSED"]
             /\ IF live THEN our' = Fix("DONE", keepalive) ELSE UNCHANGED our
             /\ IF live /\ Writable THEN wire' = [wire EXCEPT ![k].ends = @ + 1] ELSE UNCHANGED wire
             \* access record of the completed response
-            /\ hist' = [hist EXCEPT ![k].acc = IF sclosed[k] /\ "double_access_log" \notin Dev THEN @ ELSE @ + 1]
+            /\ hist' = [hist EXCEPT ![k].acc = IF sclosed[k] /\ "double_access_log" \notin Dev THEN @ ELSE @ + 1,
+                                    ![k].stale = @ \/ stl]
             \* send(StreamClosed) -> _maybe_recycle
             /\ todo' = [todo EXCEPT ![AppTask(k)] = <<<<"closeStream", 0>>, <<"recycle", 0>>>>]
-    /\ UNCHANGED <<plan, csent, ceof, creset, tfail, term, net, hbuf, heof, their, keepalive, rpc, rput, canRead,
+    /\ UNCHANGED <<plan, csent, ceof, creset, term, net, hbuf, heof, their, keepalive, rpc, rput, canRead,
                    cur, sclosed, appst, q, kar, idle, now, tr, errResp, closedBy, hdone>>
 
 (* the application coroutine ends (return or raise): task_group._handle -> app_send(None) *)
 AppExit(k) ==
     /\ Running(k)
     /\ appst' = [appst EXCEPT ![k] = "done"]
-    /\ IF sclosed[k] THEN UNCHANGED <<asgi, our, keepalive, wire, hist, todo>>
+    /\ FailNote(~sclosed[k] /\ asgi[k] = "REQ" /\ our \in {"IDLE", "SEND_RESPONSE"})
+    /\ IF sclosed[k] THEN UNCHANGED <<asgi, our, keepalive, their, wire, hist, todo>>
        ELSE /\ IF asgi[k] = "REQ"
                THEN \* _send_error_response(500): content-length 0, connection: close
                     /\ asgi' = [asgi EXCEPT ![k] = "CLOSED"]
-                    /\ hist' = [hist EXCEPT ![k].acc = @ + 1]
-                    /\ IF cur = k /\ our \in {"IDLE", "SEND_RESPONSE"}
-                       THEN /\ our' = "MUST_CLOSE" /\ keepalive' = FALSE
+                    /\ hist' = [hist EXCEPT ![k].acc = @ + 1,
+                                            ![k].stale = @ \/ (our \in {"IDLE", "SEND_RESPONSE"} /\ cur \notin {0, k})]
+                    /\ IF our \in {"IDLE", "SEND_RESPONSE"}
+                       THEN /\ our' = "MUST_CLOSE" /\ keepalive' = FALSE /\ their' = Fix(their, FALSE)
                             /\ IF Writable THEN wire' = [wire EXCEPT ![k].head = @ + 1, ![k].status = 500, ![k].ends = @ + 1]
                                ELSE UNCHANGED wire
-                       ELSE UNCHANGED <<our, keepalive, wire>>
-               ELSE UNCHANGED <<asgi, our, keepalive, wire, hist>>
+                       ELSE UNCHANGED <<our, keepalive, their, wire>>
+               ELSE UNCHANGED <<asgi, our, keepalive, their, wire, hist>>
             /\ todo' = [todo EXCEPT ![AppTask(k)] = <<<<"closeStream", 0>>, <<"recycle", 0>>>>]
-    /\ UNCHANGED <<plan, csent, ceof, creset, tfail, term, net, hbuf, heof, their, rpc, rput, canRead, cur, sclosed,
+    /\ UNCHANGED <<plan, csent, ceof, creset, term, net, hbuf, heof, rpc, rput, canRead, cur, sclosed,
                    q, kar, idle, now, tr, errResp, closedBy, hdone>>
 
 (* ---- idle-timer task --------------------------------------------------------------- *)
@@ -433,7 +463,7 @@ ServerNext ==
 
 AppNext == \E k \in Reqs : AppRecv(k) \/ AppSendStart(k) \/ AppSendBody(k, FALSE) \/ AppSendBody(k, TRUE) \/ AppExit(k)
 
-EnvNext == ClientSend \/ ClientEof \/ ClientReset \/ TransportFail \/ Terminate \/ Tick
+EnvNext == ClientSend \/ ClientEof \/ ClientReset \/ TransportFail \/ TransportDeath \/ Terminate \/ Tick
 
 Next == ServerNext \/ AppNext \/ EnvNext
 
@@ -454,6 +484,8 @@ OneResponseHead    == \A r \in Reqs : wire[r].head <= 1 /\ wire[r].ends <= 1
 (* C03 *)
 AtMostOneDisconnect == \A r \in Reqs : hist[r].disc <= 1 /\ hist[r].afterDisc = 0
 AtMostOneAccess     == \A r \in Reqs : hist[r].acc <= 1
+(* no application ever writes into the response of another request *)
+NoStaleWrite == \A r \in Reqs : ~hist[r].stale
 (* the queue never holds two disconnects either *)
 QueueOneDisc == \A r \in Reqs : Cardinality({i \in 1..Len(q[r]) : q[r][i] = "disc"}) + hist[r].disc <= 1
 (* C07: the timer never closes a connection that has a request in progress *)
@@ -463,7 +495,7 @@ NoFalseComplete == \A r \in Reqs : (appst[r] = "done" /\ asgi[r] = "RESP") => wi
 
 (* Quiescence and release (C07 / C03 as safety at quiescent points) *)
 Quiescent == ~ENABLED ServerNext
-PeerGone == ceof \/ creset \/ tr = "closed"
+PeerGone == ceof \/ creset \/ tr = "closed" \/ tfail = "gone"
 (* Once the peer is gone or the server closed and all applications returned, the handler is done *)
 Released == (Quiescent /\ PeerGone /\ csent = Len(Toks) /\ (\A k \in Reqs : appst[k] # "run") /\ net = <<>>)
             => hdone
